@@ -115,3 +115,26 @@ PROPS["C09"] = {
                   "in /repo (fix: da9b4ee), witnesses proved in Lean (f4_*_witness) and replayed from corpus/C09",
     "technique": "Lean 4 proof (escape/read round trip for all XML strings) + differential correspondence + strict-parser/grammar oracle on real .ui",
 }
+
+PROPS["C08"] = {
+    "gen": ["hash_iter_sites.py"],
+    "lean": ["QV.Props.C08"],
+    "streams": ["c08"],
+    "rule": "each case is a generated document with 6–13 bindings per object (constant, dynamic, grouped gadget members, attached, "
+            "callbacks), a quarter with 1–4 planted errors, translated 24 times in-process (8 runs × generate/reject/omit; every "
+            "HashMap instance has fresh RandomState keys, worker threads have independent key seeds, many other documents are "
+            "translated in between); .ui bytes, header bytes and the sorted list of (kind, range, message) must be identical",
+    "trusted_base": ["Rust's HashMap modelled as 'entries in an arbitrary permutation'",
+                     "str's Ord is byte-lexicographic; for UTF-8 that is code-point-lexicographic (model uses code points)",
+                     "tools/hash_iter_sites.py: heuristic scan pinning the 31 map-iteration sites (pins/C08_sites.json)"],
+    "assumptions": ["itertools::sorted_by_key is a stable sort by the key's Ord (modelled by List.mergeSort)"],
+    "level_text": "proof over the model: sorted_perm_invariant — for ANY two iteration orders of a map (distinct keys) sort-by-key yields "
+                  "the same sequence (uniqueness of the sorted permutation under a total antisymmetric order on strings), hence "
+                  "render_perm_invariant / visit_then_render_deterministic / includes_deterministic: byte-identical emission and the "
+                  "same multiset of diagnostics for every iteration order. That each real iteration site is of one of the modelled "
+                  "kinds is tied by the pinned site scan and by repeated-run comparison (partial by nature: RandomState itself is not modelled).",
+    "level_note": "trusted: Lean kernel; HashMap = arbitrary permutation; the site list is heuristic (regex scan), the classification "
+                  "sorted/order-insensitive of each site was read from the source; fresh-process determinism is also exercised by the "
+                  "C15 stream (CLI runs)",
+    "technique": "Lean 4 proof (sorting erases permutation) + pinned scan of map-iteration sites + repeated-run byte comparison",
+}
